@@ -9,6 +9,7 @@
   environment; a function sees the global environment and its own locals.  No recursion (the parser rejects it).
 -/
 import TshVerif.Sem.Src
+import TshVerif.Sem2.Bash
 namespace Tsh.Sem2.Src
 open Tsh Tsh.Tr Tsh.Sem Tsh.Sem.Src
 
@@ -335,6 +336,69 @@ def execLp : Nat → Expr → Option Stmt → List Stmt → SCfg → Option (SOu
       | some (.exit k c0) => some (.exit k, c0)
       | _ => none
 end
+
+/-! ### the fragment, statically -/
+
+mutual
+/-- expressions of the fragment; `ds`: the functions defined so far -/
+def fragE (ds : List String) : Expr → Bool
+  | .boolLit _ => true
+  | .intLit _ => true
+  | .strLit _ => true
+  | .varEval x => Tsh.Sem2.goodName2 x.name
+  | .unary _ e _ => fragE ds e
+  | .binary _ l r => fragE ds l && fragE ds r
+  | .compare _ l r => fragE ds l && fragE ds r
+  | .logical _ l r => fragE ds l && fragE ds r
+  | .group e => fragE ds e
+  | .itoa e => fragE ds e
+  | .call name _ args => ds.contains name && fragEs ds args
+  | _ => false
+def fragEs (ds : List String) : List Expr → Bool
+  | [] => true
+  | e :: rest => fragE ds e && fragEs ds rest
+end
+
+def isCallE : Expr → Bool
+  | .call _ _ _ => true
+  | _ => false
+
+mutual
+/-- statements of the fragment (no function definitions: those are top-level items, see `fragP`) -/
+def fragS (ds : List String) : Stmt → Bool
+  | .varDef vars vals =>
+      vars.length == vals.length && !vars.isEmpty && vars.all (fun x => Tsh.Sem2.goodName2 x.name) && fragEs ds vals
+  | .assign vars vals =>
+      vars.length == vals.length && !vars.isEmpty && vars.all (fun x => Tsh.Sem2.goodName2 x.name) && fragEs ds vals
+  | .varDefCall vars call => vars.all (fun x => Tsh.Sem2.goodName2 x.name) && isCallE call && fragE ds call
+  | .assignCall vars call => vars.all (fun x => Tsh.Sem2.goodName2 x.name) && isCallE call && fragE ds call
+  | .ifS cond body elifs els => fragE ds cond && fragSs ds body && fragEl ds elifs && fragSs ds els
+  | .forS init cond incr body => fragO ds init && fragE ds cond && fragO ds incr && fragSs ds body
+  | .brk => true
+  | .cont => true
+  | .print es => fragEs ds es
+  | .panic e => fragE ds e
+  | .ret vals => fragEs ds vals
+  | .expr e => isCallE e && fragE ds e
+  | _ => false
+def fragSs (ds : List String) : List Stmt → Bool
+  | [] => true
+  | s :: rest => fragS ds s && fragSs ds rest
+def fragEl (ds : List String) : List (Expr × List Stmt) → Bool
+  | [] => true
+  | (c, b) :: rest => fragE ds c && fragSs ds b && fragEl ds rest
+def fragO (ds : List String) : Option Stmt → Bool
+  | none => true
+  | some s => fragS ds s
+end
+
+/-- whole programs: function definitions at top level only, every function defined before it is called,
+    no two functions of the same name -/
+def fragP (ds : List String) : List Stmt → Bool
+  | [] => true
+  | .funcDef name _ _ params body :: rest =>
+      !ds.contains name && params.all (fun x => Tsh.Sem2.goodName2 x.name) && fragSs ds body && fragP (name :: ds) rest
+  | st :: rest => fragS ds st && fragP ds rest
 
 def SCfg.init : SCfg := { genv := fun _ => none, lenv := fun _ => none, inFn := false, out := [], funs := [] }
 
